@@ -1,6 +1,12 @@
 package guards
 
-import "golang.org/x/tools/go/ssa"
+import (
+	"fmt"
+	"os"
+	"strings"
+
+	"golang.org/x/tools/go/ssa"
+)
 
 // relationalCandidates: at a loop head, try relations between pairs of loop variables (integer phis and lengths
 // of slice phis):  x >= y,  and "x - y keeps its entry value" (two counters moving in lock-step, e.g. the length
@@ -10,7 +16,8 @@ import "golang.org/x/tools/go/ssa"
 func (a *FuncAn) relationalCandidates(b *ssa.BasicBlock, s *State, edges []*State) {
 	type pv struct {
 		at    *Atom
-		entry *Lin // value on the unique non-back edge, if any
+		entry *Lin   // value on the unique non-back edge, if any
+		delta *int64 // constant change per iteration (the same on every back edge), if any
 	}
 	var ps []pv
 	for _, ins := range b.Instrs {
@@ -33,8 +40,23 @@ func (a *FuncAn) relationalCandidates(b *ssa.BasicBlock, s *State, edges []*Stat
 		}
 		p := pv{at: l.t[0].a}
 		n := 0
+		deltaOK := true
 		for i, pred := range b.Preds {
 			if b.Dominates(pred) {
+				// back edge: value - phi must be one constant
+				var e Lin
+				if isInt {
+					e = a.Lin(phi.Edges[i])
+				} else {
+					e = a.LenOf(phi.Edges[i])
+				}
+				d := Add(e, l, -1)
+				if !d.IsConst() || (p.delta != nil && *p.delta != d.C) {
+					deltaOK = false
+				} else {
+					c := d.C
+					p.delta = &c
+				}
 				continue // back edge
 			}
 			n++
@@ -49,6 +71,9 @@ func (a *FuncAn) relationalCandidates(b *ssa.BasicBlock, s *State, edges []*Stat
 		if n != 1 {
 			p.entry = nil
 		}
+		if !deltaOK {
+			p.delta = nil
+		}
 		ps = append(ps, p)
 	}
 	try := func(cand Lin) {
@@ -57,10 +82,26 @@ func (a *FuncAn) relationalCandidates(b *ssa.BasicBlock, s *State, edges []*Stat
 		}
 		for _, es := range edges {
 			if !a.proverFor(es).Entails(cand) {
+				if os.Getenv("LW_RELDEBUG") != "" && strings.Contains(a.Fn.String(), os.Getenv("LW_RELDEBUG")) && len(cand.t) >= 3 {
+					fmt.Fprintf(os.Stderr, "relcand try %s fails on an edge\n", cand.String())
+				}
 				return
 			}
 		}
 		s.AddFact(cand)
+	}
+	if os.Getenv("LW_RELDEBUG") != "" && strings.Contains(a.Fn.String(), os.Getenv("LW_RELDEBUG")) {
+		for _, x := range ps {
+			d := "nil"
+			if x.delta != nil {
+				d = fmt.Sprint(*x.delta)
+			}
+			e := "nil"
+			if x.entry != nil {
+				e = x.entry.String()
+			}
+			fmt.Fprintf(os.Stderr, "relcand %s block %d: %s entry=%s delta=%s\n", a.Fn.Name(), b.Index, x.at.Name, e, d)
+		}
 	}
 	// sign candidates: the loop variable stays >= 1 / >= 0
 	for _, x := range ps {
@@ -91,6 +132,25 @@ func (a *FuncAn) relationalCandidates(b *ssa.BasicBlock, s *State, edges []*Stat
 					eq := Add(Add(AtomLin(x.at), AtomLin(y.at), -1), d0, -1)
 					try(eq)
 					try(Scale(eq, -1))
+				}
+				// counters moving at different constant rates (a window shrinking by 3 while an index grows by 1):
+				// dy*x - dx*y keeps its entry value
+				if x.delta != nil && y.delta != nil && *x.delta != 0 && *y.delta != 0 && *x.delta != *y.delta && *x.delta != -*y.delta {
+					dx, dy := *x.delta, *y.delta
+					if dx > -64 && dx < 64 && dy > -64 && dy < 64 {
+						w0 := Add(Scale(*x.entry, dy), *y.entry, -dx)
+						invW := true
+						for _, t := range w0.t {
+							if a.stale(t.a, b, none, memo) {
+								invW = false
+							}
+						}
+						if invW {
+							eq := Add(Add(Scale(AtomLin(x.at), dy), AtomLin(y.at), -dx), w0, -1)
+							try(eq)
+							try(Scale(eq, -1))
+						}
+					}
 				}
 				// two counters moving towards each other (i up, j down): x + y keeps its entry value
 				s0 := Add(*x.entry, *y.entry, 1)
